@@ -73,6 +73,20 @@ theorem first_after_idle_forced {cfg : Config} {s s1 : State} (hidle : Idle s)
       (l = .deliver ∧ s2.fires = s.fires + 1 ∧ s2.now = s.now) :=
   first_after_idle_forced_aux hidle.1 hidle.2.1 hidle.2.2.1 hidle.2.2.2.1 hidle.2.2.2.2 hnc hadd
 
+/-- A window opened by a token that lost the race against its own window's expiry (the expiry
+already signalled its `Add`, so nothing is pending): it signals nothing when opened and nothing
+when it ends — the state is not idle, and an `Add` arriving in it waits for the (extended) window. -/
+theorem late_token_window_silent {cfg : Config} {s s' : State} (htm : s.timer = none)
+    (hp : s.pending = 0) (hst : step cfg s .deliver = some s') :
+    s'.fires = s.fires ∧ s'.timer = some (s.now + cfg.initial) ∧ s'.pending = 0 ∧
+    ∃ s'', exec cfg s' [.top, .advance (s.now + cfg.initial), .expire] = some s'' ∧
+      s''.fires = s.fires ∧ s''.timer = none :=
+  late_token_aux htm hp hst
+
+example : (exec demo0 (init demo0) [.runCall, .run, .top, .add, .deliver, .top, .add, .advance 100, .expire, .top]).map
+      (fun s => (s.timer, s.pending, s.tokens, s.fires, (step demo0 s .deliver).isSome)) =
+    some (none, 0, 1, 2, true) := by decide
+
 example : ∃ s, exec demo (init demo) [.runCall, .run, .top, .add, .deliver, .advance 100, .top, .expire, .top] = some s ∧
     Idle s ∧ s.fires = 1 := by
   refine ⟨_, rfl, ?_⟩; decide
